@@ -214,7 +214,7 @@ func genPhSample(t *rapid.T) PhSample {
 	return PhSample{
 		Tag: genTag(t, "tag"),
 		// ids are ammo ids in real callers (counters): 0 … 2^63-1
-		ID: rapid.OneOf(rapid.Uint64Range(0, 50), rapid.Uint64Range(0, 1<<63-1)).Draw(t, "id"),
+		ID:      rapid.OneOf(rapid.Uint64Range(0, 50), rapid.Uint64Range(0, 1<<63-1)).Draw(t, "id"),
 		RTTUs:   genInt(t, "rtt", maxUs),
 		ConnUs:  genInt(t, "conn", maxUs),
 		SendUs:  genInt(t, "send", maxUs),
@@ -310,7 +310,7 @@ type window struct {
 }
 
 func (w window) stepped() bool {
-	mono := w.end.Sub(w.start)                                  // monotonic
+	mono := w.end.Sub(w.start)                                   // monotonic
 	wall := time.Duration(w.end.UnixNano() - w.start.UnixNano()) // wall clock
 	d := mono - wall
 	return d > time.Millisecond || d < -time.Millisecond
